@@ -91,10 +91,14 @@ DISCHARGE = [
     (r"MqttDeserializer::<'a>::len/assert:overflow-Sub#1$", [],
      "buf.len() - index: index is only advanced by pop / try_take_n under their own guards (index <= buf.len() is invariant)"),
     (r"MqttDeserializer::<'a>::pop/assert:BoundsCheck#1$", ["0_usize != <'a>::len(&*self)"], "buf[index] under len() != 0"),
-    (r"MqttDeserializer::<'a>::pop/assert:overflow-Add#1$", ["0_usize != <'a>::len(&*self)"], "index += 1 under len() != 0"),
+    (r"MqttDeserializer::<'a>::pop/assert:overflow-Add#1$",
+     [("0_usize != <'a>::len(&*self)", "<impl [T]>::split_first(&*<'a>::remainder(&*self)) is Some",
+       "<impl [T]>::first(&*<'a>::remainder(&*self)) is Some")],
+     "index += 1 under len() != 0 (or: the remainder has a first element)"),
     (r"MqttDeserializer::<'a>::remainder/call:index#1$", [], "buf[index..]: index <= buf.len() is invariant (see len)"),
-    (r"MqttDeserializer::<'a>::try_take_n/(assert:overflow-Add#[12]|call:index#1)$", ["n <= <'a>::len(&*self)"],
-     "buf[index..index+n] and index += n under n <= len()"),
+    (r"MqttDeserializer::<'a>::try_take_n/(assert:overflow-Add#[12]|call:index#1)$",
+     [("n <= <'a>::len(&*self)", "<impl [T]>::get(&*<'a>::remainder(&*self), RangeTo{end: n}) is Some")],
+     "buf[index..index+n] and index += n under n <= len() (or: remainder().get(..n) is Some, i.e. n <= remainder().len())"),
     (r"PacketReader::<'a>::commit/assert:overflow-Add#1$", [],
      "read_bytes += count: count is at most the length of the window handed out by receive_buffer, which ends inside the buffer"),
     (r"PacketReader::<'a>::probe_fixed_header/assert:overflow-(Mul|Shl|Add)#\d$", ["1_usize < *self.read_bytes"],
@@ -106,8 +110,9 @@ DISCHARGE = [
      "buffer[read_bytes..end] under end <= buffer.len() (C14.rx); read_bytes < end while no packet is available"),
     (r"PacketReader::<'a>::take_packet/call:index#1$", [],
      "buffer[..packet_length]: the length was accepted by receive_buffer (<= buffer.len()) before its bytes could be read"),
-    (r"decode_inbound_publish/call:index#2$", [],
-     "buffer[..packet_length] with the length take_packet just sliced successfully on the same buffer"),
+    (r"decode_inbound_publish/call:index#\d+$", [],
+     "buffer[..packet_length] with the length take_packet just sliced successfully on the same buffer",
+     r"packet_reader\.buffer.*RangeTo\{end: packet_length\}$"),
     (r"handle_packet/call:swap_remove#1$", ["is Some"], "swap_remove(index) with the index position() just returned"),
     (r"keepalive_send_interval/assert:overflow-Sub#1$", ["0_u64 != Duration::as_millis(&*self.keepalive_interval)"],
      "keepalive - min(5000, keepalive/2) >= 0 (not inbound-data dependent)"),
@@ -246,8 +251,10 @@ def rule_panic(R):
             continue
         gs = panics.guards(s["body"], s["bb"])
         entry = None
-        for (pat, need, reason) in DISCHARGE:
-            if re.search(pat, s["key"]):
+        for row in DISCHARGE:
+            pat, need, reason = row[:3]
+            # a fourth column identifies the site by what it does rather than by its position in the function
+            if re.search(pat, s["key"]) and (len(row) < 4 or re.search(row[3], s["detail"])):
                 entry = (need, reason)
                 break
         if entry is None:
@@ -256,10 +263,13 @@ def rule_panic(R):
                  % (s["what"], s["detail"][:100], s["fn"], gs[:4]), where=s["span"])
             continue
         need, reason = entry
-        missing = [g for g in need if not any(norm_guard(g) in norm_guard(have) for have in gs)]
+        # a tuple lists equivalent spellings of one required guard
+        missing = [g for g in need
+                   if not any(norm_guard(alt) in norm_guard(have) for have in gs for alt in (g if isinstance(g, tuple) else (g,)))]
         R.ob("panic/%s" % s["key"], not missing,
              "%s in %s is safe because: %s%s" % (s["what"], s["fn"], reason,
-                                                 "" if not missing else " — but the guard `%s` no longer dominates it (guards now: %s)" % (missing[0], gs[:4])),
+                                                 "" if not missing else " — but the guard `%s` no longer dominates it (guards now: %s)"
+                                                 % (missing[0] if not isinstance(missing[0], tuple) else missing[0][0], gs[:4])),
              where=s["span"])
     R.floor("panic", n, 28, "panic-capable sites on the inbound path")
     return sites, special
@@ -312,9 +322,13 @@ def rule_unreachable(R):
             else:
                 # a Progress value handed on from elsewhere: on every path to the return it was tested not to be Idle
                 vals |= _passed_on_variants(f, wcode, p)
-    R.ob("unreachable/poll-recv", vals == {"Inbound", "Advanced"},
-         "the unreachable!() for Progress::Idle in poll/recv is dead: wait_for_progress only ever returns Inbound or Advanced "
-         "(returns %s)" % sorted(vals), where=wb.span)
+    pr_sites = [s_ for s_ in panics.enumerate_sites(f, [cm["poll"][1], cm["recv"][1]]) if s_["what"] in ("panic_fmt", "panic", "expect")]
+    if not pr_sites:
+        R.ob("unreachable/poll-recv", True, "poll/recv contain no unreachable!() / panic site at all", where=wb.span)
+    else:
+        R.ob("unreachable/poll-recv", vals == {"Inbound", "Advanced"},
+             "the unreachable!() for Progress::Idle in poll/recv is dead: wait_for_progress only ever returns Inbound or Advanced "
+             "(returns %s)" % sorted(vals), where=wb.span)
     # process_received_packet: handler never returns InvalidRequest / NotReady / WriteZero
     hb, sw = outq.inbound_handler(f)
     direct = set()
